@@ -25,6 +25,7 @@ def to_cvc5_text(smt2):
     t = smt2
     t = t.replace('bv2int', 'bv2nat').replace('seq.nth_i', 'seq.nth').replace('seq.nth_u', 'seq.nth')
     t = re.sub(r'\(set-info [^)]*\)\n?', '', t)
+    t = re.sub(r'\(_ (comp\d+) 0\)', r'\1', t)
     return '(set-logic ALL)\n' + t
 
 
@@ -273,6 +274,15 @@ def map_value(model, o):
     as a function graph"""
     dom = model.eval(o.dom, model_completion=True)
     keys = set()
+    # candidate keys: every integer constant of the model (parameters, havoc'd locals, ...)
+    try:
+        for d in model.decls():
+            if d.arity() == 0 and d.range() == z3.IntSort():
+                v = model[d]
+                if z3.is_int_value(v):
+                    keys.add(v.as_long())
+    except z3.Z3Exception:
+        pass
     _array_keys(dom, keys)
     for n, (arr, k, d) in o.cols.items():
         _array_keys(model.eval(arr, model_completion=True), keys)
